@@ -49,8 +49,8 @@ E(kind, chans, needs, feats) ==
 (* feats: the kinds of client-controlled values inside the message          *)
 Endpoint == [
     \* signed CMS messages
-    rfc6492       |-> E("cms",  Both, {"ca", "child"}, {}),
-    rfc8181       |-> E("cms",  Both, {"repo", "pub"}, {}),
+    rfc6492       |-> E("cms",  Both, {"ca", "child"}, {"updown"}),
+    rfc8181       |-> E("cms",  Both, {"repo", "pub"}, {"delta"}),
     \* JSON request types: serde decoding + manager call
     roa_update    |-> E("json", Both, {"ca"}, {"roa", "pfx", "asn"}),
     roa_try       |-> E("json", Both, {"ca"}, {"roa", "pfx", "asn"}),
@@ -115,8 +115,17 @@ PathOdd == {"valid", "seg_overlong", "seg_illegal_chars", "seg_pct_slash",
 TextOdd == {"valid", "empty", "random_text", "overlong", "whitespace",
             "huge_number", "negative_number", "non_integer"}
 
-(* Classes of the client-controlled values                                  *)
+(* Classes of the client-controlled values; for the two protocols: valid,   *)
+(* correctly signed requests of a registered client whose elements collide  *)
+(* with each other or with what the preceding request left staged (not      *)
+(* malformed by construction: either kind of reply is fine)                 *)
 FeatClasses == [
+    delta  |-> {"delta_dup_publish", "delta_dup_withdraw",
+                "delta_publish_withdraw", "delta_update_withdraw",
+                "delta_dup_update", "delta_publish_existing_twice",
+                "delta_staged_collision"},
+    updown |-> {"updown_issue_twice", "updown_revoke_issue",
+                "updown_issue_revoke", "updown_revoke_twice"},
     roa    |-> {"maxlen_lt_len", "maxlen_gt_family", "maxlen_huge", "as0"},
     pfx    |-> {"len_gt_family", "host_bits", "v6_full_range",
                 "pfx_garbage"},
@@ -137,7 +146,7 @@ ValueClasses(e) == UNION { FeatClasses[f] : f \in Endpoint[e].feats }
 
 Classes(e) ==
     LET k == Endpoint[e].kind IN
-    CASE k = "cms"  -> CmsStrict \cup CmsOdd
+    CASE k = "cms"  -> CmsStrict \cup CmsOdd \cup ValueClasses(e)
       [] k = "json" -> JsonStrict \cup JsonOdd \cup ValueClasses(e)
       [] k = "path" -> PathStrict \cup PathOdd
       [] k = "text" -> TextOdd \cup ValueClasses(e)
